@@ -46,10 +46,16 @@ pub fn parse_resolve_request(request: spec::ResolveParams) -> Result<(AnyTir, Ar
     let params = tx3_tir::reduce::find_params(&tir);
     let mut args = ArgMap::new();
 
-    // explicit args take precedence over values supplied through the environment
+    // explicit args take precedence over values supplied through the environment: an env entry
+    // that an arg overrides is not even looked at (it may be typed for another use of the name)
+    let explicit = request.args;
     let env = request.env.unwrap_or_default();
+    let env = env
+        .into_iter()
+        .filter(|(key, _)| !explicit.contains_key(key))
+        .collect::<Vec<_>>();
 
-    for (key, val) in env.into_iter().chain(request.args) {
+    for (key, val) in env.into_iter().chain(explicit) {
         if let Some(ty) = params.get(&key) {
             let arg = interop::from_json(val, ty)?;
             args.insert(key, arg);
